@@ -395,7 +395,7 @@ class Arr(object):
         if isinstance(index, Arr) and index.size and all(isinstance(v, (bool, Unk)) for v in index.items()) \
                 and index.shape == self.shape:
             n_true = sum(1 for m in index.items() if m is True)
-            if isinstance(value, Arr) and value.size > 1 and value.shape != self.shape and \
+            if isinstance(value, Arr) and value.shape != self.shape and (value.size > 1 or value.size == n_true) and \
                     all(isinstance(m, bool) for m in index.items()):
                 # numpy assigns the values to the true positions one after the other
                 if value.size != n_true:
